@@ -133,6 +133,15 @@ func streamForward(rep *Report, tier string, seed uint64) {
 									}
 									emit(Case{Line: "pd " + rule + " " + hx([]byte(d)), Real: fmt.Sprintf("%s %s %s %d", fb, wpTok(s1.w, s1.wok), wpTok(s1.p, s1.pk), s1.verb), Nontriv: true, Kind: "pd:" + impl})
 								}
+								if impl == "redact" {
+									// (1c) the state is the same after the method has used its SafePrinter
+									var rec3 []probeState
+									k := (vi + m) % 11
+									_ = redact.Sprintf(d, append(append([]interface{}{}, star...), probeSF{&rec3, k})...)
+									if len(rec3) != 1 || rec3[0].key() != s1.key() || rec3[0].format != s1.format {
+										orc = append(orc, fmt.Sprintf("C14:redact: after SafePrinter call #%d inside SafeFormat, %q is seen as %v (MakeFormat %v), directly as %s (MakeFormat %q)", k, d, rec3, rec3, s1.key(), s1.format))
+									}
+								}
 								bare := m == 0 && w == "" && p == "" && vb == "v"
 								if s1.justV != bare {
 									orc = append(orc, fmt.Sprintf("C14:%s: justV=%v for %q", impl, s1.justV, d))
@@ -235,7 +244,67 @@ func streamForward(rep *Report, tier string, seed uint64) {
 		})
 }
 
-var nestBefore = []interface{}{math.NaN(), math.Inf(1), 1.5, -2, "s", nil, complex(math.NaN(), 1), true, []byte("b"), errors.New("e"), strg{"q"}, panicStr{}, 'x', uint8(3)}
+var nestBefore = []interface{}{math.NaN(), math.Inf(1), 1.5, -2, "s", nil, complex(math.NaN(), 1), true, []byte("b"), errors.New("e"), strg{"q"}, panicStr{}, 'x', uint8(3),
+	sfCall{0}, sfCall{1}, sfCall{2}, sfCall{3}, sfCall{4}, sfCall{5}, sfCall{6}, sfCall{7}, sfCall{8}, sfCall{9}, sfCall{10}}
+
+// sfCall: a SafeFormatter whose SafeFormat makes one call on the SafePrinter (each method in turn):
+// none of them may disturb the directive state that later siblings, or the caller itself, observe.
+type sfCall struct{ K int }
+
+func spCall(p redact.SafePrinter, k int) {
+	switch k % 11 {
+	case 0:
+		p.SafeInt(7)
+	case 1:
+		p.SafeUint(7)
+	case 2:
+		p.SafeFloat(2.5)
+	case 3:
+		p.SafeString("s")
+	case 4:
+		p.SafeRune('r')
+	case 5:
+		p.SafeByte('b')
+	case 6:
+		p.SafeBytes([]byte("sb"))
+	case 7:
+		p.UnsafeString("u")
+	case 8:
+		p.Print("p", 1)
+	case 9:
+		p.Printf("%5.1f|%v", 2.5, "x")
+	case 10:
+		p.UnsafeRune('u')
+	}
+}
+
+func (s sfCall) SafeFormat(p redact.SafePrinter, verb rune) { spCall(p, s.K) }
+
+// probeSF: a SafeFormatter that first uses its SafePrinter (call k) and then records the state.
+type probeSF struct {
+	rec *[]probeState
+	k   int
+}
+
+func (q probeSF) SafeFormat(p redact.SafePrinter, verb rune) {
+	spCall(p, q.k)
+	probe{q.rec}.Format(p, verb)
+}
+
+// fwdSF: a SafeFormatter that forwards the active directive to its payload with MakeFormat.
+type fwdSF struct{ x interface{} }
+
+func (f fwdSF) SafeFormat(p redact.SafePrinter, verb rune) {
+	justV, format := redact.MakeFormat(p, verb)
+	if justV {
+		p.Print(f.x)
+	} else {
+		p.Printf(format, f.x)
+	}
+}
+
+var fwdDirs = []string{"%f", "%.0f", "%8f", "%8.0f", "%e", "%.0e", "%x", "%.0x", "%5d", "%05d", "%d", "% d", "%+v", "%v", "%s", "%.0s", "%6.2f", "%-6v", "%#x", "%q"}
+var fwdVals = []interface{}{2.4, 17, "fw‹d", 255, -3.75}
 
 type panicStr struct{}
 
@@ -261,7 +330,7 @@ func streamErrorf(rep *Report, tier string, seed uint64) {
 			resetRegistry()
 			defer redact.RegisterRedactErrorFn(nil)
 			e1, e2 := errors.New("err‹one"), wrapErr{"outer", errors.New("in")}
-			operandPool := []interface{}{e1, e2, nil, "notanerror", 42, redact.Safe(e1), redact.Unsafe(e2), (*nilRecvErr)(nil), errFmtr{"x"}, sfErr{"y"},
+			operandPool := []interface{}{e1, e2, nil, "notanerror", 42, redact.Safe(e1), redact.Unsafe(e2), (*nilRecvErr)(nil), errFmtr{"x"}, sfErr{"y"}, sfErrW{errors.New("cause")},
 				// errors of non-comparable dynamic types
 				sliceErr{errors.New("m1"), errors.New("m2")}, mapErr{"k": "v"}, redact.Unsafe(sliceErr{errors.New("m3")})}
 			for i := 0; i < n; i++ {
@@ -373,7 +442,7 @@ func streamErrorf(rep *Report, tier string, seed uint64) {
 func hasRedactSpecific(args []interface{}) bool {
 	for _, a := range args {
 		switch a.(type) {
-		case sfErr:
+		case sfErr, sfErrW:
 			return true
 		}
 		if a != nil {
@@ -519,6 +588,12 @@ func probeCalls() []probeCall {
 		}},
 		{"width-state", func() string { return string(redact.Sprintf("%v|%v", fmtr{"a"}, fmtr{"b"})) }},
 		{"sf", func() string { return string(redact.Sprint(safeFmtr{"s", "u"})) }},
+		{"forward-a", func() string {
+			return string(redact.Sprintf("%.0f|%f|%8.0f|%8f|%.0e|%e", fwdSF{2.4}, fwdSF{2.4}, fwdSF{2.4}, fwdSF{2.4}, fwdSF{2.4}, fwdSF{2.4}))
+		}},
+		{"forward-b", func() string {
+			return string(redact.Sprintf("%x|%.0x|%5d|%05d|%s|%.0s|%d|% d", fwdSF{255}, fwdSF{255}, fwdSF{17}, fwdSF{17}, fwdSF{"fw"}, fwdSF{"fw"}, fwdSF{17}, fwdSF{17}))
+		}},
 		{"unsafe-safe", func() string {
 			return string(redact.Sprint(redact.Unsafe(redact.Safe("x")), redact.Safe(redact.Unsafe("y"))))
 		}},
@@ -526,7 +601,9 @@ func probeCalls() []probeCall {
 }
 
 func historyCall(r *Rng) {
-	switch r.Intn(10) {
+	switch r.Intn(11) {
+	case 10: // a formatter that forwards its directive with MakeFormat
+		safely(func() { redact.Sprintf(fwdDirs[r.Intn(len(fwdDirs))], fwdSF{fwdVals[r.Intn(len(fwdVals))]}) })
 	case 0: // panicking out of the printer: panic while printing a panic payload
 		safely(func() { redact.Sprint(pString{pString{"deep"}}) })
 	case 1: // very large output
@@ -608,6 +685,26 @@ func streamHistories(rep *Report, tier string, seed uint64) {
 					}
 					if len(kept) < 2000 {
 						kept = append(kept, struct{ s, copy string }{got, string(append([]byte(nil), got...))})
+					}
+				}
+				// a formatter that forwards its directive prints like a direct call whatever was forwarded
+				// before: directive pairs that differ only in whether width / precision are *present*,
+				// with a width that is new in every round (so that a first-use-wins cache cannot have
+				// been primed the same way in the fresh process)
+				{
+					w := 9 + round%55
+					pairs := [][2]string{{fmt.Sprintf("%%%df", w), fmt.Sprintf("%%%d.0f", w)}, {fmt.Sprintf("%%.%de", w%7), fmt.Sprintf("%%%d.%de", 0, w%7)},
+						{fmt.Sprintf("%%%dx", w), fmt.Sprintf("%%%d.0x", w)}, {fmt.Sprintf("%%%ds", w), fmt.Sprintf("%%%d.0s", w)}}
+					pr := pairs[round%len(pairs)]
+					if round%2 == 1 {
+						pr[0], pr[1] = pr[1], pr[0]
+					}
+					val := fwdVals[round%len(fwdVals)]
+					for _, d := range pr {
+						got, want := redact.Sprintf(d, fwdSF{val}), redact.Sprintf(d, val)
+						if got != want {
+							orc = append(orc, fmt.Sprintf("C12:Sprintf(%q, forwarder{%v}) = %q after the earlier calls, a direct call gives %q", d, val, got, want))
+						}
 					}
 				}
 				// the bytes an F-variant hands to its destination stay intact while the destination
